@@ -31,6 +31,8 @@ class RM:
         self.n = z3.Int(prefix + "n")
         self.memo = {}
         self._keep = []
+        self.cap = None            # optional bound on the number of backtracking candidates built (OverflowError beyond)
+        self.built = 0
 
     def inrange(self, i):
         return self.n > i
@@ -141,6 +143,9 @@ class RM:
             raise NotImplementedError(str(op))
         res = [(z3.simplify(c), j) for c, j in res]
         res = [(c, j) for c, j in res if not z3.is_false(c)]
+        self.built += len(res)
+        if self.cap is not None and (len(res) > self.cap or self.built > 50 * self.cap):
+            raise OverflowError("backtracking candidates exceed the cap")
         self.memo[key] = res
         return res
 
@@ -564,3 +569,86 @@ sys.exit(0 if same else 1)
         n = mo.eval(m1.n).as_long()
         return _res(t0, 2, verdict="PROVED-IN-BOUND", detail="unsat", witness="".join(chr(mo.eval(m1.x[j], model_completion=True).as_long()) for j in range(n)))
     return _res(t0, 2, verdict="INCONCLUSIVE", detail=f"solver {r}, twin {tw}")
+
+
+# ---------------------------------------------------------------------------------------------------------------------
+# C11: no terminal backtracks catastrophically
+# ---------------------------------------------------------------------------------------------------------------------
+
+BT_REPLAY = '''# replay: time the real regular expression of terminal %(name)s on the witness, stretched
+import re, sys, time
+rx = re.compile(%(rx)r)
+w = %(w)r
+mid = w[len(w) // 2] if w else "a"
+n = len(w)
+while n <= 4096:
+    text = w[: len(w) // 2] + mid * (n - len(w)) + w[len(w) // 2:]
+    t0 = time.time()
+    rx.match(text)
+    dt = time.time() - t0
+    print("length", len(text), "match time %%.3fs" %% dt)
+    if dt > 2.0:
+        print("catastrophic backtracking: the scanner does not answer promptly")
+        sys.exit(1)
+    n += 4 if n < 64 else n
+sys.exit(0)
+'''
+
+
+def lx_backtracking(L=12):
+    """for every terminal of the grammar: over all texts of length L, the number of *distinct backtracking paths* CPython's matcher
+    can be forced to try (candidates whose conditions hold simultaneously) stays within L*L; an exponential family (nested
+    quantifiers that can split one run in many ways) exceeds it.  A witness text is stretched and timed on the real `re`."""
+    import z3
+    from mappyfile.parser import Parser
+    t0 = time.time()
+    terms = [(t.name, t.pattern.to_regexp()) for t in Parser().lalr.terminals]
+    q = 0
+    worst = (0, None)
+    for name, rx in terms:
+        LL = L
+        m = RM(LL)
+        m.cap = 20000
+        try:
+            cands = m.first(rx, 0, whole_to=True)
+        except OverflowError:
+            cands = None
+        if cands is None:
+            # the candidate list itself explodes (the grammar's own terminals stay below 1 000 at this length)
+            w = _slowest_text(rx)
+            return _res(t0, q, verdict="CEX", detail=f"terminal {name}: more than 20000 backtracking candidates at length {LL}", cex={"terminal": name, "text": w},
+                        replay_code=BT_REPLAY % dict(name=name, rx=rx, w=w))
+        total = z3.Sum([z3.If(c, 1, 0) for c, _ in cands]) if cands else z3.IntVal(0)
+        s = z3.Solver()
+        s.set("timeout", 120000)
+        s.add(m.n == LL, total > LL * LL)
+        r = str(s.check())
+        q += 1
+        if r == "sat":
+            mo = s.model()
+            w = "".join(chr(mo.eval(m.x[j], model_completion=True).as_long()) for j in range(LL))
+            return _res(t0, q, verdict="CEX", detail=f"terminal {name}: {mo.eval(total)} simultaneous backtracking paths on a text of length {LL}", cex={"terminal": name, "text": w},
+                        replay_code=BT_REPLAY % dict(name=name, rx=rx, w=w))
+        if r != "unsat":
+            return _res(t0, q, verdict="INCONCLUSIVE", detail=f"{name}: {r}")
+        worst = max(worst, (len(cands), name))
+    return _res(t0, q, verdict="PROVED-IN-BOUND", detail=f"unsat x{q}", witness={"terminals": len(terms), "largest_candidate_list": worst})
+
+
+def _slowest_text(rx):
+    import itertools
+    import time as _t
+    alpha = sorted(set(ch for ch in rx if ch.isprintable() and ch not in "()[]{}|?*+^$.")) or ["a"]
+    alpha = (alpha + ['a', '"', "'", "\\"])[:6]
+    best = ("", 0.0)
+    for first in ['"', "'", "/", "`", "a", "#", "%"]:
+        for ch in alpha:
+            w = first + ch * 22
+            t0 = _t.time()
+            re.compile(rx).match(w)
+            dt = _t.time() - t0
+            if dt > best[1]:
+                best = (w, dt)
+            if dt > 0.5:
+                return w[:14]
+    return best[0][:14]
